@@ -131,7 +131,25 @@ func registerConcretizing(ex *Exec) {
 		return Tuple{C.FPConst(f), errVal(ex, st, err)}, true
 	}
 	I["strconv.Unquote"] = func(ex *Exec, st *State, args []Value, call ssa.CallInstruction) (Value, bool) {
-		cs := ex.concreteStr(st, args[0].(Str), maxVals)
+		s := args[0].(Str)
+		if _, ok := s.Concrete(); !ok && len(s.B) >= 2 && s.B[0].IsConst() && s.B[0].Val == '"' &&
+			s.B[len(s.B)-1].IsConst() && s.B[len(s.B)-1].Val == '"' {
+			// double-quoted text without backslash, quote, newline or non-ASCII byte is returned as is
+			inner := s.B[1 : len(s.B)-1]
+			plain := C.True
+			for _, b := range inner {
+				plain = C.And(plain, C.And(C.And(C.Not(C.Eq(b, C.BVConst('\\', 8))), C.Not(C.Eq(b, C.BVConst('"', 8)))),
+					C.And(C.Not(C.Eq(b, C.BVConst('\n', 8))), C.BVCmp(smt.OUlt, b, C.BVConst(0x80, 8)))))
+			}
+			tst, fst := ex.branch(st, plain, nil)
+			if tst != nil {
+				if fst != nil {
+					ex.push(fst) // re-executes with a special byte present
+				}
+				return Tuple{Str{inner}, Iface{}}, true
+			}
+		}
+		cs := ex.concreteStr(st, s, 400)
 		r, err := strconv.Unquote(cs)
 		return Tuple{ex.strConst(r), errVal(ex, st, err)}, true
 	}
